@@ -74,6 +74,11 @@ class InitQsvs(Spec):
     def bounds(self, E): return [self.NS, self.ncodes, self.n(z3.IntVal(0)), self.n(z3.IntVal(1))] + list(self.dict_lens)
     def may_write(self, E, p, ref, field):
         return ref == self.d if (field.startswith('$d') or field == '$len') else z3.BoolVal(False)
+    def relevant(self, label):
+        """hypotheses tried first (sound: fewer hypotheses; the full set is the fallback): the two-variable facts are needed by few obligations"""
+        if label.startswith('no-'): return ['', 'req:', 'dictwf']
+        if ':model[name]' in label: return ['', 'spec:', 'dictwf', 'req:subgraphs']
+        return ['', 'dictwf', 'req:subgraphs']
     def model_at(self, h): return h.load(self.d, '$dhas:str')[ANY], h.load(self.d, '$dmap:str:ref')[ANY]
     def graph_kept(self, ctx, h):
         """lengths / attributes that the loops also store on objects they allocate: unchanged on the model objects"""
@@ -90,11 +95,11 @@ class InitQsvs(Spec):
     def inv_names(self, E, ctx, p, pre, m):
         S = self; h = p.heap; hp = pre.heap; has, val = S.model_at(h); hasp, valp = S.model_at(hp); r = pre.env['op_qsvs'].term
         ohas = hp.load(r, '$dhas:str')[ANY]; omap = hp.load(r, '$dmap:str:ref')[ANY]; done = And(ohas, KW(r, ANY) < m)
-        return [('m-range', And(0 <= m, m <= ln(hp, r))), ('model[name]: kept if present before, else the init value once its key has been visited', And(has == Or(hasp, done), val == If(And(Not(hasp), done), omap, valp))),
+        return [('m-range', And(0 <= m, m <= ln(hp, r))), ('model[name]: kept if present, else init value once its key is visited', And(has == Or(hasp, done), val == If(And(Not(hasp), done), omap, valp))),
                 ('returned-dict-not-written', And(h.load(r, '$dkeys:str') == hp.load(r, '$dkeys:str'), h.load(r, '$dhas:str') == hp.load(r, '$dhas:str'), h.load(r, '$dmap:str:ref') == hp.load(r, '$dmap:str:ref'), ln(h, r) == ln(hp, r)))] + S.graph_kept(ctx, h)
     def ensures(self, E, ctx, p, ret):
         S = self; has, val = S.model_at(p.heap)
-        return [('model[name] == first-writer-wins fold over (subgraph, operator) order; names already present are kept', And(has == S.RH(S.NS), val == S.RV(S.NS))),
+        return [('model[name] == first-writer-wins fold; present names kept', And(has == S.RH(S.NS), val == S.RV(S.NS))),
                 ('model-dict-object-kept', p.heap.load(S.self_, '_model_qsvs') == S.d)]
     # ---- callee contracts
     def k_scope(self, E, p, args, kw, node): return V('str', SCOPEF(p.heap.load(args[0].term, 'outputs'), args[1].term))
